@@ -17,6 +17,8 @@ SELECTIONS = [
     ('no-decorations', {'exclude': ['DECORATION']}),
     ('bekern-categories', {'include': ['STRUCTURAL', 'CORE', 'SIGNATURES', 'BARLINES', 'IMAGE_ANNOTATIONS']}),
     ('no-durations', {'exclude': ['DURATION']}),
+    ('no-pitches', {'exclude': ['PITCH']}),
+    ('no-durations-no-rests', {'exclude': ['DURATION', 'REST']}),
     ('notes-only', {'include': ['NOTE_REST', 'CHORD', 'HEADER', 'SPINE_OPERATION', 'BARLINES', 'CLEF']}),
 ]
 
@@ -101,7 +103,7 @@ def one(ctx: Ctx, cs, pname=None, **over):
             t = None
         if t is not None:
             ctx.mon('derived_documents')
-            relations(ctx, t, doc, rows, kind_at, clef_ok, SELECTIONS[:2] + SELECTIONS[3:4],
+            relations(ctx, t, doc, rows, kind_at, clef_ok, SELECTIONS[:2] + SELECTIONS[3:5],
                       {'case_seed': cs, 'profile': pname, 'over': over, 'text': x, 'derived': 'to_transposed'}, 'transposed')
     if nontriv:
         ctx.nontriv(x)
@@ -178,7 +180,10 @@ def relations(ctx, d, doc, rows, kind_at, clef_ok, selections, case0, label):
                        for c, s_ in zip(r, srow)]
                 if not GM.is_null_row(row):
                     exp_b.append(row)
-            if gb != exp_b:
+            same = len(gb) == len(exp_b) and all(
+                len(a_) == len(b_) and all(x_ == y_ or (y_ == '' and x_ in GM.NULLS) for x_, y_ in zip(a_, b_))
+                for a_, b_ in zip(gb, exp_b))
+            if not same:
                 ctx.violation('basic-vs-full', f'bekern has {len(gb)} lines, ekern {len(ge)}, and the difference is not explained by '
                               f'lines left all-null [{sname}]', case)
             continue
@@ -189,27 +194,43 @@ def relations(ctx, d, doc, rows, kind_at, clef_ok, selections, case0, label):
                 if s.kind == 'header':
                     continue
                 exp = basic_of(oe, is_note)
+                if is_note and exp == '' and ob in GM.NULLS:
+                    continue   # nothing left of the note: the null token stands in for it
                 if ob != exp:
                     key = 'basic-vs-full'
                     ctx.violation(key, f'[{label}] bekern cell {ob!r} != ekern cell {oe!r} with signifiers removed note by note '
                                   f'({exp!r}) [{sname}] (source {doc.lines[s.line].cells[s.col].text!r})', case)
-        # non-note cells identical in the six encodings
+        # non-note cells identical in the six encodings (each export aligned with the source rows on its own, compared by
+        # source position, so that lines dropped in one encoding only cannot shift the comparison)
+        emap = {(s_.line, s_.col): (oe, s_) for erow, srow in zip(ge, aligned) for oe, s_ in zip(erow, srow)}
         for name, t in out.items():
             if t is None or name == 'ekern':
                 continue
             g = kpx.grid(t)
-            if len(g) != len(ge):
+            al = align(g, src_rows)
+            if al is None:
+                ctx.mon('alignment_skipped')
                 continue
-            for r, (erow, orow, srow) in enumerate(zip(ge, g, aligned)):
-                if len(orow) != len(erow):
-                    ctx.violation('non-note-cells', f'{name} line {r + 1} has {len(orow)} cells, ekern {len(erow)} [{sname}]', case)
-                    break
-                for oe, oo, s in zip(erow, orow, srow):
-                    if s.kind in GM.NOTE_KINDS or s.kind == 'header':
+            for orow, srow in zip(g, al):
+                for oo, s_ in zip(orow, srow):
+                    if s_.kind in GM.NOTE_KINDS or s_.kind == 'header' or (s_.line, s_.col) not in emap:
                         continue
                     ctx.mon('non_note_cells_compared')
+                    oe = emap[(s_.line, s_.col)][0]
                     if oo != oe:
-                        ctx.violation('non-note-cells', f'{s.kind} cell differs between ekern ({oe!r}) and {name} ({oo!r}) [{sname}]', case)
+                        ctx.violation('non-note-cells', f'[{label}] {s_.kind} cell differs between ekern ({oe!r}) and {name} ({oo!r}) [{sname}]', case)
+
+
+def cell_compatible(c, o):
+    if o in ('.', '*'):
+        return True
+    if c.kind == 'header':
+        return o.startswith('**')
+    if c.kind == 'bar':
+        return o.startswith('=')
+    if c.kind in GM.NOTE_KINDS:
+        return not o.startswith(('=', '**', '!')) and not (o.startswith('*') and len(o) > 1 and ' ' not in o)
+    return o == c.text
 
 
 def align(g, src_rows):
@@ -224,8 +245,7 @@ def align(g, src_rows):
         found = None
         while k < len(src_rows):
             s = src_rows[k]
-            if len(s) == len(row) and all(c.kind in GM.NOTE_KINDS or c.kind in ('header', 'bar') or o in (c.text, '.', '*')
-                                          for c, o in zip(s, row)):
+            if len(s) == len(row) and all(cell_compatible(c, o) for c, o in zip(s, row)):
                 found = k
                 break
             k += 1
@@ -238,7 +258,7 @@ def align(g, src_rows):
 
 def run(ctx: Ctx):
     install_factory_recorder()
-    ctx.rule = ('documents of the C01 generator x six encodings x 5 category selections that keep durations or pitches. Relations '
+    ctx.rule = ('documents of the C01 generator x six encodings x 7 category selections that keep durations or pitches. Relations '
                 'between the real outputs: plain = extended without separators (3 pairs), header = ** + prefix + type, bekern = ekern with '
                 'the signifier part removed note by note (chord notes split on the space; which cells are notes comes from the abstract '
                 'document), non-note cells identical in all six. Non-trivial = document with a chord carrying a signifier on a non-last '
